@@ -201,7 +201,7 @@ pub fn gen_rules_world(seed: u64) -> SupplyTrace {
     // a relay built on purpose: one artifact with an unusual base name goes from step i-1 (products, below
     // a destination prefix or not) to step i (materials, below a source prefix or not); the decision of
     // step i's material rules hinges on whether its MATCH rule consumes exactly that artifact
-    if n >= 2 && r.chance(1, 8) {
+    if n >= 2 && r.chance(1, 5) {
         let i = 1 + r.idx(n - 1);
         let base = *r.pick(&["~lock", "übersicht", "~", "é", "ünï", "~foo", "zz", "a b", "Ω", "-dash", ".dot", "~~", "\u{7f}del", "a", "x.y.z"]);
         let srcp = if r.chance(3, 4) { Some(*r.pick(PREFIXES)) } else { None };
@@ -217,7 +217,25 @@ pub fn gen_rules_world(seed: u64) -> SupplyTrace {
             l.products.insert(dst_key.clone(), d.clone());
         }
         if let Body::Link(l) = &mut files[i].body {
-            l.materials.insert(src_key.clone(), if r.chance(1, 5) { gen::digest_of(4000 + ctr, false) } else { d });
+            // what arrives carries the same digest, another one, or one that is a prefix / an extension of it
+            // (or empty): only the same digest may be consumed
+            let arriving = match r.weighted(&[50, 14, 12, 12, 12]) {
+                0 => d,
+                1 => gen::digest_of(4000 + ctr, false),
+                k => {
+                    let mut x = d.clone();
+                    let h = x.get("sha256").cloned().unwrap_or_default();
+                    let nh = match k {
+                        2 => h[..(h.len() / 4) * 2].to_string(),
+                        3 => String::new(),
+                        _ => format!("{h}00"),
+                    };
+                    x.insert("sha256".into(), nh);
+                    labels.push("RELAY-DIGEST-PREFIX".to_string());
+                    x
+                }
+            };
+            l.materials.insert(src_key.clone(), arriving);
         }
         let mut m: Rule = vec!["MATCH".into(), r.pick(&["*", "?*", "*?"]).to_string()];
         if r.chance(1, 3) {
